@@ -236,11 +236,9 @@ func (g *Gateway) introspectSchema(schema *introspection.Schema, selectionSet as
 	result := map[string]interface{}{}
 
 	for _, field := range graphql.SelectedFields(selectionSet) {
-		if field.Name == "__typename" {
+		switch field.Name {
+		case "__typename":
 			result[field.Alias] = "__Schema"
-			continue
-		}
-		switch field.Alias {
 		case "types":
 			result[field.Alias] = g.introspectTypeSlice(schema.Types(), field.SelectionSet)
 		case "queryType":
